@@ -41,12 +41,20 @@ theorem ehep_eos (p : EHEP.P) (x t : ℝ) (h : EHEP.outcome p x t = .ok) (hγ : 
        | (field_simp; ring1)
        | ring1
        | (-- density = 0 leaves: the sound speed vanishes, hence the pressure
+          -- (p and ρ satisfy 256 ρ₀² p = 27 D² ρ³ identically, however the sound speed is written)
           rename_i hz
-          rcases div_eq_zero_iff.mp hz with h1 | h1
-          · rcases mul_eq_zero.mp h1 with h2 | h2
-            · exfalso; linarith
-            · rw [h2]; ring1
-          · exact absurd h1 hD'))
+          have key : ∀ P R E : ℝ, P * (256 * p.rho_0 ^ 2) = 27 * p.D ^ 2 * R ^ 3 → R = 0 → E = 0 →
+              P = (p.gamma - 1) * R * E := by
+            intro P R E h1 h2 h3
+            rw [h2] at h1 ⊢; rw [h3]
+            have h0 : P * (256 * p.rho_0 ^ 2) = 0 := by rw [h1]; ring
+            rcases mul_eq_zero.mp h0 with h | h
+            · rw [h]; ring
+            · exfalso
+              have h4 : p.rho_0 ^ 2 ≠ 0 := pow_ne_zero _ hρ'
+              apply h4; linarith
+          refine key _ _ _ ?_ hz rfl
+          first | (field_simp; done) | (field_simp; ring1) | ring1))
 
 /-- non-vacuity: default parameters, a point of region I -/
 example : ∃ (p : EHEP.P) (x t : ℝ), EHEP.outcome p x t = .ok ∧ p.gamma - 1 ≠ 0 := by
